@@ -5410,6 +5410,24 @@ def ck3(m, run, classes, keys_of, rule='CK3.cache-keys-exist-on-new-objects-and-
                         why = 'the deep copy has no cache entry %r (its cache is a fresh dictionary that nobody fills with the keys): reading it on a copy raises KeyError' % miss[0]
                     elif full:
                         why = 'cache entry %r of a deep copy of a new object is not empty' % full[0]
+            # a class that customises pickling (what multiprocessing does to every element handed to a worker and back): the object that
+            # comes back - state = __getstate__() (or the instance dictionary), a new instance without __init__, __setstate__(state) (or an
+            # update of its dictionary) - has the keys too
+            gs_, ss_ = m.lookup(cls, '__getstate__', 'methods'), m.lookup(cls, '__setstate__', 'methods')
+            if why is None and (gs_ is not None or ss_ is not None) and m.lookup(cls, '__reduce__', 'methods') is None and m.lookup(cls, '__reduce_ex__', 'methods') is None:
+                from .skel import BUILTINS as _B
+                state = sk.call(gs_, [obj], {}) if gs_ is not None else dict(obj._a)
+                state = _B['deepcopy'].f(sk, None, state) if isinstance(state, dict) else state        # (serialised and rebuilt)
+                back = Bag(cls)
+                if ss_ is not None:
+                    sk.call(ss_, [back, state], {})
+                elif isinstance(state, dict):
+                    back._a.update(state)
+                cb = back._a.get('_cache')
+                missb = [k for k in keys if not isinstance(cb, dict) or k not in cb]
+                if missb:
+                    why = ('after a pickle round trip through the class\'s own __getstate__ / __setstate__ (what a worker pool does to the elements it is handed) the object has no '
+                           'cache entry %r: the first read raises KeyError - with one process the same call works' % missb[0])
         except Violation as v:
             why = '%s %s' % (v.msg, v.where())
         except Unsupported as ex:
